@@ -547,6 +547,10 @@ func memmove(dst, src Ptr, n int64) (ptrCells int) {
 	if dst.l == nil || src.l == nil {
 		panic(goPanic{"nil pointer dereference (memmove)"})
 	}
+	if accessHook != nil {
+		accessHook(src, n, false)
+		accessHook(dst, n, true)
+	}
 	d, s := norm(dst), norm(src)
 	if d.off < 0 || d.off+n > sizeof(d.l.typ) {
 		panic(memViolation{fmt.Sprintf("copy of %d bytes to offset %d outside allocation of %d bytes (%s)", n, d.off, sizeof(d.l.typ), d.l.typ)})
@@ -666,10 +670,16 @@ func valueToBytes(t types.Type, v Value) []T {
 	panic(memViolation{"raw store of pointer-bearing type " + t.String()})
 }
 
+// accessHook, when set, is told about every memory access (thread-modular race analysis).
+var accessHook func(p Ptr, n int64, write bool)
+
 // loadTyped loads a value of static type t through pointer p.
 func loadTyped(p Ptr, t types.Type) Value {
 	if p.l == nil {
 		panic(goPanic{"nil pointer dereference"})
+	}
+	if accessHook != nil {
+		accessHook(p, sizeof(t), false)
 	}
 	if l := resolve(p, t); l != nil {
 		return l.load()
@@ -684,6 +694,9 @@ func loadTyped(p Ptr, t types.Type) Value {
 func storeTyped(p Ptr, t types.Type, v Value) {
 	if p.l == nil {
 		panic(goPanic{"nil pointer dereference"})
+	}
+	if accessHook != nil {
+		accessHook(p, sizeof(t), true)
 	}
 	if l := resolve(p, t); l != nil {
 		l.store(v)
